@@ -63,6 +63,8 @@ def parseOp (line : String) : Option Op :=
   | ["sappend", a, w] => do some (.sappend (← n? a) w)
   | ["sjoin", a, b] => do some (.sjoin (← n? a) (← n? b))
   | ["sadd", a, b, w] => do some (.sadd (← n? a) (← n? b) w)
+  | ["saddl", a, b, w] => do some (.saddl (← n? a) (← n? b) w)
+  | ["sadd2", a, b, c] => do some (.sadd2 (← n? a) (← n? b) (← n? c))
   | ["schar", a, b, w] => do some (.schar (← n? a) (← n? b) w)
   | ["srange", a, b, c, w] => do some (.srange (← n? a) (← n? b) (← n? c) w)
   | ["inp", a, b, c] => do some (.inp (← n? a) (← n? b) (← n? c))
